@@ -278,6 +278,10 @@ func (c *channel) sendMsg(req request) (err error) {
 
 	c.streamMut.RLock()
 	defer c.streamMut.RUnlock()
+	// The goroutine below may outlive this function and then run concurrently with a reconnect
+	// that replaces the stream and its cancel function; it must cancel the stream that this
+	// request is being written to, not the one that has replaced it.
+	cancelStream := c.cancelStream
 
 	done := make(chan struct{})
 
@@ -297,7 +301,7 @@ func (c *channel) sendMsg(req request) (err error) {
 				// false alarm
 			default:
 				// trigger reconnect
-				c.cancelStream()
+				cancelStream()
 			}
 		}
 	}()
